@@ -483,7 +483,7 @@ Section ScreenB.
 
   Lemma writesB_inv m : forall ws t g,
     AInvB m t g -> target_n (ms_target m) = 0 -> ms_zombie_lines m = 0 ->
-    forallb (fun w => match w with [] => false | _ => true end) ws = true ->
+    (match ws with [] :: _ => t_col t = 0%nat | _ => True end) ->
     AInvB m (run_ops Wn Hn t (map TLine ws))
           (mkbg (bg_log g ++ map LLine ws) (bg_kept g) (bg_pad g) (bg_live g)).
   Proof using HW HH.
@@ -491,25 +491,64 @@ Section ScreenB.
     assert (HHn : (1 <= Hn)%nat) by (unfold Hn; lia).
     induction ws as [|w ws IH]; intros t g Hinv Hn0 Hz0 Hok.
     - cbn [map]. rewrite run_ops_nil, app_nil_r. destruct g; exact Hinv.
-    - cbn [forallb] in Hok. apply andb_prop in Hok. destruct Hok as [Hw Hok].
-      cbn [map]. rewrite run_ops_cons.
+    - cbn [map]. rewrite run_ops_cons.
       replace (bg_log g ++ LLine w :: map LLine ws) with ((bg_log g ++ [LLine w]) ++ map LLine ws)
         by (rewrite <- app_assoc; reflexivity).
-      apply (IH (exec Wn Hn t (TLine w)) (mkbg (bg_log g ++ [LLine w]) (bg_kept g) (bg_pad g) (bg_live g)));
-        try assumption.
-      destruct Hinv as (tg & Ht & Horph & Hmb & L & K & F & Hr & HL & HK & HF & HlF & HlK & Hreach & Hcur).
-      rewrite Ht in Hn0. cbn [target_n] in Hn0. rewrite Hn0, Hz0 in *.
-      destruct F; [|discriminate]. destruct K; [|discriminate]. rewrite !app_nil_r in Hr.
-      destruct (line_spec Wn Hn (pre ++ L) t w HWn HHn Hr) as (Hr' & Hc' & Hre').
-      { left. destruct w; [discriminate | discriminate]. }
-      exists tg. split; [exact Ht|]. split; [exact Horph|].
-      split; [exact Hmb|]. exists (L ++ chunks Wn w), [], []. cbn [bg_log bg_kept].
-      change (bg_region (mkbg (bg_log g ++ [LLine w]) (bg_kept g) (bg_pad g) (bg_live g))) with (bg_region g).
-      rewrite !app_nil_r, Hn0, Hz0.
-      split; [rewrite app_assoc; exact Hr'|].
-      split; [rewrite log_rows_app; apply rows_equiv_app; [exact HL|]; unfold log_rows; cbn; rewrite app_nil_r; apply rows_equiv_refl|].
-      split; [exact HK|]. split; [exact HF|]. split; [reflexivity|]. split; [reflexivity|]. split; [lia|].
-      split; [intros _; exact Hc' | intros _ Hge; lia].
+      assert (Hstep : AInvB m (exec Wn Hn t (TLine w)) (mkbg (bg_log g ++ [LLine w]) (bg_kept g) (bg_pad g) (bg_live g))
+                      /\ t_col (exec Wn Hn t (TLine w)) = 0%nat).
+      { clear IH.
+        destruct Hinv as (tg & Ht & Horph & Hmb & L & K & F & Hr & HL & HK & HF & HlF & HlK & Hreach & Hcur).
+        pose proof Hn0 as Hn0'. rewrite Ht in Hn0'. cbn [target_n] in Hn0'. rewrite Hn0', Hz0 in *.
+        destruct F; [|discriminate]. destruct K; [|discriminate]. rewrite !app_nil_r in Hr.
+        destruct (line_spec Wn Hn (pre ++ L) t w HWn HHn Hr) as (Hr' & Hc' & Hre').
+        { destruct w; [right; exact Hok | left; discriminate]. }
+        split; [|exact Hc'].
+        exists tg. split; [exact Ht|]. split; [exact Horph|].
+        split; [exact Hmb|]. exists (L ++ chunks Wn w), [], []. cbn [bg_log bg_kept].
+        change (bg_region (mkbg (bg_log g ++ [LLine w]) (bg_kept g) (bg_pad g) (bg_live g))) with (bg_region g).
+        rewrite !app_nil_r, Hn0', Hz0.
+        split; [rewrite app_assoc; exact Hr'|].
+        split; [rewrite log_rows_app; apply rows_equiv_app; [exact HL|]; unfold log_rows; cbn; rewrite app_nil_r; apply rows_equiv_refl|].
+        split; [exact HK|]. split; [exact HF|]. split; [reflexivity|]. split; [reflexivity|]. split; [lia|].
+        split; [intros _; exact Hc' | intros _ Hge; lia]. }
+      destruct Hstep as [Hinv' Hc'].
+      apply (IH (exec Wn Hn t (TLine w)) (mkbg (bg_log g ++ [LLine w]) (bg_kept g) (bg_pad g) (bg_live g)) Hinv' Hn0 Hz0).
+      destruct ws as [|[|x w2] ws']; [exact I | exact Hc' | exact I].
+  Qed.
+
+  (** after the clear of suspend the cursor is at column 0 whenever [closure_ok] admits an empty
+      first closure line *)
+  Lemma clearB_col m t g c :
+    AInvB m t g -> fits_clearB W H m = true ->
+    (1 <=? target_n (ms_target m) + ms_zombie_lines m) || target_below (ms_target m) = true ->
+    t_col (run_ops Wn Hn t (snd (fst (fst (ms_clear W H nofaults m c))))) = 0%nat.
+  Proof using HW HH.
+    intros (tg & Ht & Horph & Hmb & L & K & F & Hr & HL & HK & HF & HlF & HlK & Hreach & Hcur) Hfit Hok.
+    unfold ms_clear, fits_clearB in *. rewrite Ht in *. cbn [target_n target_below] in Hok.
+    assert (Erc : region_count m = tt_n tg + ms_zombie_lines m)
+      by (unfold region_count; rewrite Ht; reflexivity).
+    rewrite Erc in *.
+    set (tg1 := tt_adjust_clear tg (ms_zombie_lines m)) in *.
+    pose proof (term_draw_rowsB W H HW HH (pre ++ L) (K ++ F) t tg1 [] [] c) as Hd.
+    cbv zeta in Hd. fold Wn Hn in Hd. cbn [app] in Hd.
+    change (tt_n tg1) with (tt_n tg + ms_zombie_lines m) in Hd.
+    change (tt_align tg1) with (tt_align tg) in Hd. change (tt_below tg1) with (tt_below tg) in Hd.
+    destruct Hd as (_ & _ & _ & RT & RF & _ & _ & _ & _ & _ & Hnil).
+    { rewrite <- app_assoc. exact Hr. }
+    { rewrite app_length. lia. }
+    { lia. }
+    { intros Hge. destruct Hcur as [Hc1 Hc2].
+      destruct (tt_below tg); [apply Hc1; reflexivity | apply Hc2; [reflexivity | lia]]. }
+    { constructor. } { constructor. }
+    { destruct (shifts W (tt_align tg) [] (tt_n tg + ms_zombie_lines m)).
+      - intros _. now apply N.ltb_lt.
+      - unfold visual_line_count. cbn. lia. }
+    destruct (Hnil eq_refl) as (_ & Hge & Hz).
+    destruct (term_draw W H nofaults tg1 [] c) as [[[tg2 e] c'] ok]. cbn [fst snd] in *.
+    destruct (N.eq_dec (tt_n tg + ms_zombie_lines m) 0) as [Hz0|Hnz].
+    - destruct (Hz Hz0) as [_ Ht']. rewrite Ht'. apply (proj1 Hcur).
+      apply orb_prop in Hok. destruct Hok as [Hok|Hok]; [apply N.leb_le in Hok; lia | exact Hok].
+    - apply Hge. lia.
   Qed.
 
   Lemma g_drawB_same ne m m' extra g :
@@ -530,7 +569,7 @@ Section ScreenB.
   Proof using HW HH.
     intros Hinv (Hws & Hfc & Hfit). cbv zeta. unfold ms_suspend.
     pose proof (clearB_inv m t g c Hinv Hfc) as Hc. cbv zeta in Hc. unfold fst4 in Hc.
-    destruct (ms_clear W H nofaults m c) as [[[m1 e1] c1] ok1]. cbn [fst snd] in Hc.
+    destruct (ms_clear W H nofaults m c) as [[[m1 e1] c1] ok1] eqn:Ec. cbn [fst snd] in Hc.
     destruct Hc as (Hinv1 & Hn1 & Hz1 & Eor & Eme & Eod & Efr & Eal).
     pose proof Hinv1 as (tg1 & Ht1 & _).
     rewrite Ht1 in *. cbn [target_n] in Hn1.
@@ -538,7 +577,10 @@ Section ScreenB.
     set (m1' := set_ms_target m1 (TTerm tg1')).
     pose proof (AInvB_abandon m1 _ _ tg1 _ Hinv1 Ht1 Hz1) as Hinv1'. fold tg1' m1' in Hinv1'.
     rewrite emit_each_nofaults.
-    pose proof (writesB_inv m1' ws _ _ Hinv1' eq_refl Hz1 Hws) as Hinv2. cbn [bg_log bg_kept bg_pad bg_live] in Hinv2.
+    assert (Hcol : match ws with [] :: _ => t_col (run_ops Wn Hn t e1) = 0%nat | _ => True end).
+    { destruct ws as [|[|x w] ws']; try exact I. unfold closure_ok in Hws.
+      pose proof (clearB_col m t g c Hinv Hfc Hws) as Hcc. rewrite Ec in Hcc. exact Hcc. }
+    pose proof (writesB_inv m1' ws _ _ Hinv1' eq_refl Hz1 Hcol) as Hinv2. cbn [bg_log bg_kept bg_pad bg_live] in Hinv2.
     pose proof (drawB_inv m1' _ _ true None now (c1 + N.of_nat (length (map TLine ws))) Hinv2 I) as Hd.
     cbv zeta in Hd. unfold fst4 in Hd.
     assert (Hatt : ms_attempt W m1' true None now = true) by reflexivity.
